@@ -83,10 +83,11 @@ Proof.
     apply andb_prop in H; destruct H as [H H2]; apply Bool.eqb_prop in H2.
     apply andb_prop in H; destruct H as [H H1]; apply Bool.eqb_prop in H1.
     apply N.eqb_eq in H.
-    congruence.
+    subst. reflexivity.
   - intros ->; unfold clsdesc_eqb.
     rewrite N.eqb_refl, !Bool.eqb_reflx.
-    destruct (c_dctor b), (c_cctor b), (c_mctor b), (c_cassign b), (c_massign b), (c_dtor b); reflexivity.
+    assert (R : forall x, sm_eqb x x = true) by (intros x; destruct x; reflexivity).
+    rewrite !R. reflexivity.
 Qed.
 
 Lemma cty_eqb_refl : forall a, cty_eqb a a = true.
